@@ -323,8 +323,8 @@ def diagnose(fam, kind, op, args, hostile, oc, op_, stage, extra=None):
     if op == 'iand' and stage == 'result' and op_[:2] == ('exc', 'TypeError') \
             and oc[0] == 'ok':
         return 'F26'
-    if stage in ('shape', 'pickle') and extra and extra.get('iand_seen'):
-        return 'F28'
+    # (F28 - C rebuilt the set for &=, Python discarded in place - was
+    # repaired together with F51: shape and pickle must agree after &=)
     if stage == 'pickle' and fam.name == 'fs' and extra and \
             extra.get('memo_only'):
         return 'F13'
